@@ -16,7 +16,7 @@ if HERE not in sys.path:
     sys.path.insert(0, HERE)
 
 SPEC_MODULES = ['spec.calendar', 'spec.strings', 'spec.css_sem']
-CONTRACT_MODULES = ['contracts.inputs', 'contracts.strings', 'contracts.nav', 'contracts.match', 'contracts.lemmas']
+CONTRACT_MODULES = ['contracts.inputs', 'contracts.strings', 'contracts.nav', 'contracts.match', 'contracts.lemmas', 'contracts.parser']
 VOCAB_MODULES = ['pyvc.rx_rules', 'pyvc.prims_sym', 'pyvc.tree']
 
 
@@ -92,7 +92,8 @@ def verify_function(world, qual, timeout_ms=5000, cover=True, mutate=None, want_
         if r['result'] == 'refuted' and want_models and r.get('z3model') is not None and mutate is None:
             from . import replay
             try:
-                entry['replay'] = replay.replay_scalar(world, c, r['z3model'])
+                hook = getattr(c, 'replay_hook', None)
+                entry['replay'] = hook(world, c, r['z3model']) if hook else replay.replay_scalar(world, c, r['z3model'])
             except replay.CannotConcretize as ex:
                 entry['replay'] = dict(status='not-concretizable', reason=str(ex))
             except Exception as ex:
